@@ -354,7 +354,7 @@ Proof.
   destruct (flush_fault_bytes i _ _ Ht) as [E|E]; rewrite E; [symmetry; exact Hst|reflexivity].
 Qed.
 
-(* without a fault the same program returns Ok exactly when ... it is not vacuous: a concrete run *)
+(* not vacuous: a concrete run in which the fault fires inside Drop and is swallowed there *)
 Example C16_success_complete_example :
   let is := [IBlob [1; 2; 3; 4; 5]] in
   let xml := [60; 97; 47; 62] in
